@@ -57,6 +57,7 @@ class Scenario:
     line_functions: tuple[str, ...] | None = None
     fine_ops: tuple[str, ...] | None = ("set_status", "retrieve")   # ops whose internals are preemptible
     spawn_workers: bool = True          # pollers start a worker actor per yielded invocation
+    settle: bool = False                # after the run: recovery + a surviving runner until quiet
 
     def ckey(self, inv: str) -> str:
         """The running-concurrency key of an invocation ("" = not controlled)."""
@@ -224,7 +225,10 @@ class World:
                 self.rec.ghost("accepted", invs=names, client=cname)
         return run
 
-    def poller(self, rname: str, n: int, rounds: int = 1, inline_run: bool = False) -> Callable[[], None]:
+    def poller(self, rname: str, n: int, rounds: int = 1, inline_run: bool = False,
+               run: bool = True) -> Callable[[], None]:
+        run_flag = run
+
         def run() -> None:
             rctx = W.ctx(rname)
             s = sched.current_scheduler()
@@ -234,7 +238,7 @@ class World:
                     for inv in self.app.orchestrator.get_invocations_to_run(n, rctx):
                         name = self.namer.name(inv.invocation_id)
                         self.rec.ghost("yielded", inv=name, runner=rname)
-                        if not self.scn.spawn_workers:
+                        if not self.scn.spawn_workers or not run_flag:
                             continue
                         if inline_run or s is None:
                             self._run_inv(inv, rctx)
@@ -257,6 +261,24 @@ class World:
         except Exception as ex:
             self.rec.ghost("run_end", inv=name, runner=rctx.runner_id, ok=False, err=type(ex).__name__)
 
+    def worker(self, rname: str, inv_name: str) -> Callable[[], None]:
+        def run() -> None:
+            with quiet():
+                inv = self.app.state_backend.get_invocation(self.namer.real(inv_name))
+            self._run_inv(inv, W.ctx(rname))
+        return run
+
+    def kill_reroute(self, rname: str, inv_name: str) -> Callable[[], None]:
+        from pynenc.runner.thread_runner import ThreadRunner
+        from pynenc.runner.runner_context import RunnerContext
+
+        def run() -> None:
+            runner = ThreadRunner(self.app, runner_context=RunnerContext("ThreadRunner", rname))
+            self.rec.ghost("stop_start", runner=rname)
+            runner._kill_and_reroute(self.namer.real(inv_name))
+            self.rec.ghost("stop_end", runner=rname)
+        return run
+
     def recovery(self, rname: str, kind: str) -> Callable[[], None]:
         from pynenc import core_tasks
 
@@ -275,6 +297,21 @@ class World:
         return run
 
     # ---- running ----------------------------------------------------------------------
+    def settle(self) -> None:
+        """After the scenario (and a crash): time passes, the recovery services and one surviving
+        runner keep running.  Sequential, no scheduler; events are still recorded."""
+        scn = self.scn
+        self.clock.advance(max(scn.max_pending_seconds, scn.dead_after_minutes * 60) + 1.0)
+        self.rec.ghost("settle_start")
+        for _ in range(3):
+            self.app.orchestrator.register_runner_heartbeats(["r9"])
+            self.recovery("r9", "pending")()
+            self.recovery("r9", "running")()
+            self.poller("r9", 2, rounds=4, inline_run=True)()
+            self.clock.advance(max(scn.max_pending_seconds, scn.dead_after_minutes * 60) + 1.0)
+        self.app.state_backend.wait_for_all_async_operations()
+        self.rec.emit("settled", {})
+
     def actor_fn(self, spec: tuple) -> tuple[str, Callable[[], None], str]:
         kind = spec[0]
         if kind == "client":
@@ -284,6 +321,10 @@ class World:
             return f"p:{spec[1]}", self.poller(spec[1], spec[2], **kw), "poller"
         if kind == "recovery":
             return f"rec{spec[2][0]}:{spec[1]}", self.recovery(spec[1], spec[2]), "recovery"
+        if kind == "worker":
+            return f"w:{spec[1]}:{spec[2]}", self.worker(spec[1], spec[2]), "worker"
+        if kind == "kill_reroute":
+            return f"s:{spec[1]}", self.kill_reroute(spec[1], spec[2]), "stopper"
         raise ValueError(spec)
 
     def do_setup(self) -> None:
@@ -294,7 +335,7 @@ class World:
             if k == "client":
                 self.client(step[1], step[2])()
             elif k == "poll":
-                self.poller(step[1], step[2], inline_run=False)()
+                self.poller(step[1], step[2], run=False)()
             elif k == "pollrun":
                 self.poller(step[1], step[2], inline_run=True)()
             elif k == "advance":
@@ -304,6 +345,9 @@ class World:
             elif k == "status":
                 self.app.orchestrator.set_invocation_status(
                     self.namer.real(step[1]), InvocationStatus(step[2]), W.ctx(step[3]))
+            elif k == "drain":
+                while self.app.broker.retrieve_invocation():
+                    pass
             elif k == "queue":
                 self.app.broker.route_invocation(self.namer.real(step[1]))
             else:
@@ -338,8 +382,8 @@ class World:
                     for v in victims:
                         if v.state in ("parked", "blocked") and v.steps == kill_at[1] - 1:
                             proc = v.name.split(":")[1] if ":" in v.name else v.name
-                            self.rec.emit("crash", {"actor": v.name, "proc": proc,
-                                                    "pending": (v.pending or {}).get("label", "")})
+                            self.rec.emit("crash", {"proc": proc, "kind": v.role,
+                                                    "val": str((v.pending or {}).get("label", ""))})
                             for other in list(s.actors.values()):
                                 parts = other.name.split(":")
                                 if len(parts) > 1 and parts[1].split("/")[0] == proc:
@@ -367,12 +411,15 @@ class World:
             else:
                 outcome = "steps"
             schedule = list(s.trace)
+            actor_steps = {a.name: a.steps for a in s.actors.values()}
             errors = {a.name: repr(a.error) for a in s.actors.values() if a.error is not None}
             # late history writers
             self.rec.ghost("quiescent", outcome=outcome)
             s.drain_daemons()
         self.sched = None
         self.app.state_backend.wait_for_all_async_operations()
+        if self.scn.settle:
+            self.settle()
         # confirm the queue shadow by draining the real broker
         with quiet():
             real_q = []
@@ -385,7 +432,7 @@ class World:
                 self.app.broker.route_invocation(self.namer.real(x))
         self.rec.emit("final", {"outcome": outcome}, real_queue=real_q, hist=self.history())
         return {"events": self.rec.events, "schedule": schedule, "outcome": outcome, "errors": errors,
-                "preempted": preempted, "kinds": kinds_seen}
+                "preempted": preempted, "kinds": kinds_seen, "actor_steps": actor_steps}
 
 
 def execute(scn: Scenario, policy: Callable[[Scheduler, list[str]], str | None], **kw: Any) -> dict[str, Any]:
